@@ -1,0 +1,55 @@
+//go:build verif
+
+// Contracts for /verif (build tag "verif"): //@ comment blocks and pure ghost functions only.
+package platform
+
+import (
+	"io"
+
+	"github.com/tetratelabs/wazero/sys"
+)
+
+var (
+	_ io.Reader
+	_ sys.Walltime
+)
+
+// The default (fake) clocks are deterministic sequences that depend on nothing but how often they
+// were read: the k-th reading of the wall clock is the fixed epoch + (k-1) ms, of the monotonic
+// clock (k-1) ms. (Checked for the first readings by executing the real closures symbolically;
+// each reading adds the constant to a counter captured by the closure, which is all their state.)
+//@ prop C18
+//@ lemma func verifLemmaFakeClocks()
+func verifLemmaFakeClocks() {
+	w := NewFakeWalltime()
+	s1, n1 := w()
+	s2, n2 := w()
+	s3, n3 := w()
+	verif_assert(s1 == 1640995200 && n1 == 0)
+	verif_assert(s2 == 1640995200 && n2 == 1000000)
+	verif_assert(s3 == 1640995200 && n3 == 2000000)
+	w2 := NewFakeWalltime() // a second instance starts from the same value
+	t1, m1 := w2()
+	verif_assert(t1 == 1640995200 && m1 == 0)
+	n := NewFakeNanotime()
+	verif_assert(n() == 0)
+	verif_assert(n() == 1000000)
+	verif_assert(n() == 2000000)
+	m := NewFakeNanotime()
+	verif_assert(m() == 0)
+}
+
+// The constructors of the deterministic defaults mark what they return (ghost flags); what the
+// clocks then compute is the lemma above. math/rand with the fixed seed 42 is assumed deterministic.
+//@ func NewFakeWalltime() sys.Walltime
+//@   trusted
+//@   ensures r0 != nil && verif_ghost_flag("fakeWalltime", r0)
+//@   modifies nothing
+//@ func NewFakeNanotime() sys.Nanotime
+//@   trusted
+//@   ensures r0 != nil && verif_ghost_flag("fakeNanotime", r0)
+//@   modifies nothing
+//@ func NewFakeRandSource() io.Reader
+//@   trusted
+//@   ensures r0 != nil && verif_ghost_flag("fakeRand", r0)
+//@   modifies nothing
